@@ -151,6 +151,10 @@ def run_flags(flags):
                             # both names match the grammar but only one lies in the time window (a data file
                             # renamed to another timestamp or into a properties file): outside the stated behaviours
                             continue
+                        gotd = fire(DirMovedEvent(ps, pd))
+                        if gotd:
+                            bad({"class": "directory_event_delivered", "src": ls, "dest": ld},
+                                "DirMovedEvent(%s -> %s) flags=%r -> %r" % (os.path.relpath(ps, top), os.path.relpath(pd, top), flags, gotd))
                         got = fire(FileMovedEvent(ps, pd))
                         if a and b:
                             want = [("moved", ps, pd)]
